@@ -781,18 +781,18 @@ theorem good_exp_half_go_nonneg (fuel : Nat) (v : Int) (h0 : 0 ≤ v) :
   · exact good_index _ EXP_16_N_good _
   · exact good_mul_tt (good_index _ EXP_16_N_good _) (good_index _ EXP_HALF_N_good _)
 
-/-- The one fact about this family that is not derived here: the reciprocals `1.0 / exp_half(m)`, `1 ≤ m ≤ 1439`,
-taken by `exp_half` on negative arguments, satisfy the invariant.  It is a CLOSED finite statement (1439 kernel
-evaluations of about 1.3 s each; `TwoFloat / TwoFloat` and `f64 / TwoFloat` are the operators whose invariant is
-open in C01).  Samples are evaluated in `C14p`. -/
+/-- The one fact about this family that is not derived in this file: the reciprocals `1.0 / exp_half(m)`,
+`1 ≤ m ≤ 1418` (the range `exp` reaches), taken by `exp_half` on negative arguments, satisfy the invariant.  It is a
+CLOSED finite statement; it is PROVED in `C14p.expHalfRecipInv` (from the division theorem `C01d.recip_valid` for
+`m ≤ 1400`, by kernel evaluation for the 18 remaining values). -/
 def ExpHalfRecipInv : Prop :=
-  ∀ m : Int, 1 ≤ m → m ≤ 1439 →
+  ∀ m : Int, 1 ≤ m → m ≤ 1418 →
     (arithmetic.impl_Div_TwoFloat_for_f64.div (f64lit 0x3ff0000000000000)
       (explog.exp_half.go 1 (⟨m⟩ : I32))).Inv
 
-theorem good_exp_half (HR : ExpHalfRecipInv) (n : I32) (h : n.v.natAbs ≤ 1439) : Good (explog.exp_half n) := by
+theorem good_exp_half (HR : ExpHalfRecipInv) (n : I32) (h : n.v.natAbs ≤ 1418) : Good (explog.exp_half n) := by
   obtain ⟨v⟩ := n
-  have h' : v.natAbs ≤ 1439 := h
+  have h' : v.natAbs ≤ 1418 := h
   by_cases hv : 0 ≤ v
   · exact good_exp_half_go_nonneg 1 v hv
   · show Good (explog.exp_half.go 2 (⟨v⟩ : I32))
@@ -841,7 +841,7 @@ theorem good_exp (HR : ExpHalfRecipInv) {x : TwoFloat} (hx : Good x) : Good (Two
     · show Good (explog.exp_half (RCast.cast (TwoFloat.round
         (arithmetic.impl_Mul_TwoFloat_for_f64.mul (f64lit 0x4000000000000000) x)).hi : I32))
       rw [cast_f64_i32 hyf hyk (by omega)]
-      exact good_exp_half HR _ (by show k.natAbs ≤ 1439; omega)
+      exact good_exp_half HR _ (by show k.natAbs ≤ 1418; omega)
 
 /-! ## Part 6: logarithms -/
 
